@@ -37,6 +37,13 @@ def lazy_inv(self):
             and (self.enable_lazy_commit or pending(self) == 0))
 
 
+# frame of a write: the storage's own counters, the tables of its connection, and objects it allocates (cursors, row lists)
+DBMOD = ["self.last_commit", "self.num_uncommitted_statements", "self.conn.*", "alloc"]
+CUR_FRESH = ["sqlite3.Cursor.rowcount", "sqlite3.Cursor.lastrowid", "sqlite3.Cursor.conn", "List.len", "List.items"]
+EV_FRESH = ["Event.id", "Event.timestamp", "Event.duration", "Event.data", "Event.id!has", "Event.timestamp!has",
+            "Event.duration!has", "Event.data!has", "Dict.map:JV"]
+
+MAXES_SAME = "ev_max(self) == old(ev_max(self)) and bk_max(self) == old(bk_max(self))"      # ids are never handed out again
 BUCKETS_SAME = "all(bk_row(self, r) == old(bk_row(self, r)) for r in bucket_rowids(self))"
 EVENTS_SAME = "all(ev_row(self, i) == old(ev_row(self, i)) for i in event_ids(self))"
 
@@ -45,7 +52,7 @@ contract(
     S_ + ".commit",
     params={"self": "SqliteStorage"}, requires=["db_inv(self)"],
     ensures=["pending(self) == 0 and self.num_uncommitted_statements == 0 and ncommits(self) == old(ncommits(self)) + 1",
-             "issued(self) == old(issued(self)) and db_inv(self)", BUCKETS_SAME, EVENTS_SAME,
+             "issued(self) == old(issued(self)) and db_inv(self)", BUCKETS_SAME, EVENTS_SAME, MAXES_SAME,
              "self.enable_lazy_commit == old(self.enable_lazy_commit)"],
     modifies=["self.last_commit", "self.num_uncommitted_statements", "self.conn.committed", "self.conn.ncommits"], raises=[],
 )
@@ -56,7 +63,7 @@ contract(
               # on entry the statements just issued are not yet counted
               "not self.enable_lazy_commit or (0 <= self.num_uncommitted_statements and self.num_uncommitted_statements <= 50"
               "    and pending(self) <= self.num_uncommitted_statements + num_statements)"],
-    ensures=["lazy_inv(self)", "issued(self) == old(issued(self))", BUCKETS_SAME, EVENTS_SAME,
+    ensures=["lazy_inv(self)", "issued(self) == old(issued(self))", BUCKETS_SAME, EVENTS_SAME, MAXES_SAME,
              "self.enable_lazy_commit == old(self.enable_lazy_commit)",
              # C18: a write issued more than ten seconds after the previous flush is flushed before it returns
              "not (self.enable_lazy_commit and old(clock_now() - self.last_commit) > timedelta(seconds=10)) or pending(self) == 0",
@@ -106,9 +113,9 @@ contract(
         "all((i == event_id and old(in_bucket(self, i, bucket_id)) and not ev_live(self, i)) "
         "    or (not (i == event_id and old(in_bucket(self, i, bucket_id))) and ev_row(self, i) == old(ev_row(self, i)))"
         "    for i in event_ids(self))",
-        BUCKETS_SAME, "lazy_inv(self)",
+        BUCKETS_SAME, "lazy_inv(self)", MAXES_SAME,
     ],
-    modifies=["heap"], raises=[],
+    modifies=DBMOD, writes_fresh=CUR_FRESH, raises=[],
 )
 
 # -- replace ------------------------------------------------------------------------------------------------------------
@@ -121,9 +128,9 @@ contract(
         "     and ev_bucketrow(self, i) == old(ev_bucketrow(self, i)))"
         "    or (not (i == event_id and old(in_bucket(self, i, bucket_id))) and ev_row(self, i) == old(ev_row(self, i)))"
         "    for i in event_ids(self))",
-        BUCKETS_SAME, "lazy_inv(self)", EV_UNCHANGED,
+        BUCKETS_SAME, "lazy_inv(self)", EV_UNCHANGED, MAXES_SAME,
     ],
-    modifies=["heap"], raises=[],
+    modifies=DBMOD, writes_fresh=CUR_FRESH, raises=[],
 )
 
 # -- replace_last ----------------------------------------------------------------------------------------------------------
@@ -137,9 +144,9 @@ contract(
         "     and ev_bucketrow(self, i) == old(ev_bucketrow(self, i)))"
         "    or (not old(newest(self, i, bucket_id)) and ev_row(self, i) == old(ev_row(self, i)))"
         "    for i in event_ids(self))",
-        BUCKETS_SAME, "lazy_inv(self)", EV_UNCHANGED,
+        BUCKETS_SAME, "lazy_inv(self)", EV_UNCHANGED, MAXES_SAME,
     ],
-    modifies=["heap"], raises=[],
+    modifies=DBMOD, writes_fresh=CUR_FRESH, raises=[],
 )
 
 # -- insert_one ---------------------------------------------------------------------------------------------------------------
@@ -153,8 +160,263 @@ contract(
         "event.id == old(ev_max(self)) + 1 and not old(ev_live(self, ev_max(self) + 1)) and ev_max(self) == event.id",
         "in_bucket(self, event.id, bucket_id) and holds(self, event.id, event)",
         "all(i == event.id or ev_row(self, i) == old(ev_row(self, i)) for i in event_ids(self))",
-        BUCKETS_SAME, "lazy_inv(self)", EV_UNCHANGED,
+        BUCKETS_SAME, "lazy_inv(self)", EV_UNCHANGED, "bk_max(self) == old(bk_max(self))",
     ],
     exc_ensures={"IntegrityError": ["not old(bucket_exists(self, bucket_id))", EVENTS_SAME, BUCKETS_SAME, "pending(self) == old(pending(self))"]},
-    modifies=["heap", "event.id"], raises=["IntegrityError"],
+    modifies=DBMOD + ["event.id"], writes_fresh=CUR_FRESH, raises=["IntegrityError"],
+)
+
+
+# -- buckets -----------------------------------------------------------------------------------------------------------------
+@spec
+def bucket_row_is(self, r, bucket_id, type_id, client, hostname, created, name, datastr):
+    return (bk_live(self, r) and bk_id(self, r) == bucket_id and bk_col(self, r, "type") == type_id and bk_col(self, r, "client") == client
+            and bk_col(self, r, "hostname") == hostname and bk_col(self, r, "created") == created and bk_col(self, r, "name") == name
+            and bk_col(self, r, "datastr") == datastr)
+
+
+contract(
+    S_ + ".get_metadata",
+    params={"self": "SqliteStorage", "bucket_id": "str"}, returns="Dict[str,JV]",
+    requires=["db_inv(self)"],
+    ensures=[
+        "old(bucket_exists(self, bucket_id))",
+        # describes the one live bucket row with that id
+        "all(not (bk_live(self, r) and bk_id(self, r) == bucket_id) or "
+        "    (result['id'] == bk_id(self, r) and result['type'] == bk_col(self, r, 'type') and result['client'] == bk_col(self, r, 'client')"
+        "     and result['hostname'] == bk_col(self, r, 'hostname') and result['created'] == bk_col(self, r, 'created')"
+        "     and jv_dict(result['data']) == json.loads(bk_col(self, r, 'datastr') if len(bk_col(self, r, 'datastr')) > 0 else '{}'))"
+        "    for r in bucket_rowids(self))",
+        "fresh(result)",
+        BUCKETS_SAME, EVENTS_SAME, "pending(self) == old(pending(self)) and issued(self) == old(issued(self))",
+    ],
+    exc_ensures={"ValueError": ["not old(bucket_exists(self, bucket_id))", BUCKETS_SAME, EVENTS_SAME, "pending(self) == old(pending(self))"]},
+    modifies=["alloc"], writes_fresh=["Dict.map:JV", "sqlite3.Cursor.rowcount", "sqlite3.Cursor.lastrowid", "sqlite3.Cursor.conn", "List.len", "List.items"],
+    raises=["ValueError"],
+)
+
+contract(
+    S_ + ".create_bucket",
+    params={"self": "SqliteStorage", "bucket_id": "str", "type_id": "str", "client": "str", "hostname": "str", "created": "str",
+            "name": "Optional[str]", "data": "Optional[Dict[str,JV]]"},
+    returns="Dict[str,JV]",
+    requires=["lazy_inv(self)"],
+    ensures=[
+        "not old(bucket_exists(self, bucket_id)) and bucket_exists(self, bucket_id)",
+        # a new bucket row (row id never used before) with exactly the metadata given ...
+        "bucket_row_is(self, old(bk_max(self)) + 1, bucket_id, type_id, client, hostname, created, name, json.dumps(data or {}))",
+        "all(r == old(bk_max(self)) + 1 or bk_row(self, r) == old(bk_row(self, r)) for r in bucket_rowids(self))",
+        # ... which starts empty, all events of all other buckets untouched
+        EVENTS_SAME, "all(not in_bucket(self, i, bucket_id) for i in event_ids(self))",
+        # durable as soon as it returns
+        "pending(self) == 0 and lazy_inv(self)", "ev_max(self) == old(ev_max(self)) and bk_max(self) == old(bk_max(self)) + 1",
+    ],
+    exc_ensures={"IntegrityError": ["old(bucket_exists(self, bucket_id))", BUCKETS_SAME, EVENTS_SAME, "pending(self) == old(pending(self))"]},
+    modifies=DBMOD, writes_fresh=CUR_FRESH + ["Dict.map:JV"], raises=["IntegrityError"],
+)
+
+contract(
+    S_ + ".delete_bucket",
+    params={"self": "SqliteStorage", "bucket_id": "str"},
+    requires=["lazy_inv(self)"],
+    ensures=[
+        "old(bucket_exists(self, bucket_id)) and not bucket_exists(self, bucket_id)",
+        # the bucket row and all of its events are gone, every other row is as before
+        "all((old(bk_live(self, r) and bk_id(self, r) == bucket_id) and not bk_live(self, r))"
+        "    or (not old(bk_live(self, r) and bk_id(self, r) == bucket_id) and bk_row(self, r) == old(bk_row(self, r)))"
+        "    for r in bucket_rowids(self))",
+        "all((old(in_bucket(self, i, bucket_id)) and not ev_live(self, i))"
+        "    or (not old(in_bucket(self, i, bucket_id)) and ev_row(self, i) == old(ev_row(self, i))) for i in event_ids(self))",
+        # durable on return, and not split: the only commit of the operation comes after its last statement
+        "pending(self) == 0 and ncommits(self) == old(ncommits(self)) + 1 and lazy_inv(self)", MAXES_SAME,
+    ],
+    exc_ensures={"ValueError": ["not old(bucket_exists(self, bucket_id))", BUCKETS_SAME, EVENTS_SAME, "pending(self) == 0"]},
+    modifies=DBMOD, writes_fresh=CUR_FRESH, raises=["ValueError"],
+)
+
+
+# -- reads --------------------------------------------------------------------------------------------------------------------
+from datetime import datetime, timezone
+
+
+@spec
+def dec(x):
+    """The instant the stored float x decodes to."""
+    return datetime.fromtimestamp(x / 1000000, timezone.utc)
+
+
+@spec
+def decodes(e, row):
+    """Event e is the decoding of the row (id, starttime, endtime, datastr)."""
+    return (e.id == row[0] and e.timestamp == floor_to_ms(dec(row[1])) and e.duration == dec(row[2]) - dec(row[1])
+            and e.data == json.loads(row[3]))
+
+
+contract(
+    "aw_datastore.storages.sqlite._rows_to_events",
+    params={"rows": "List[Tuple[int, float, float, str]]"}, returns="List[Event]",
+    locals={"events": "List[Event]"},
+    requires=[],
+    ensures=["len(result) == len(rows) and fresh(result)",
+             "all(fresh(result[j]) and decodes(result[j], rows[j]) for j in range(len(result)))"],
+    modifies=["alloc"], raises=[],
+    writes_fresh=["Event.id", "Event.timestamp", "Event.duration", "Event.data", "Event.id!has", "Event.timestamp!has",
+                  "Event.duration!has", "Event.data!has", "Dict.map:JV", "List.len", "List.items"],
+    loops={0: dict(index="k", invariant=[
+        "len(events) == k",
+        "all(fresh(events[j]) and allocated(events[j]) and allocated(events[j].data) and decodes(events[j], rows[j]) for j in range(k))",
+    ])},
+)
+
+PURE_READ = [BUCKETS_SAME, EVENTS_SAME, MAXES_SAME, "issued(self) == old(issued(self)) and pending(self) == 0 and lazy_inv(self)"]
+
+contract(
+    S_ + ".get_event",
+    params={"self": "SqliteStorage", "bucket_id": "str", "event_id": "int"}, returns="Optional[Event]",
+    requires=["lazy_inv(self)"],
+    ensures=["(result is not None) == in_bucket(self, event_id, bucket_id)",
+             "result is None or (fresh(result) and decodes(result, (event_id, ev_start(self, event_id), ev_end(self, event_id), ev_data(self, event_id))))",
+             ] + PURE_READ,
+    modifies=DBMOD, writes_fresh=CUR_FRESH + EV_FRESH, raises=[],
+)
+
+contract(
+    S_ + ".get_eventcount",
+    params={"self": "SqliteStorage", "bucket_id": "str", "starttime": "Optional[datetime]", "endtime": "Optional[datetime]"}, returns="int",
+    requires=["lazy_inv(self)"],
+    ensures=["result >= 0",
+             # no matching event -> 0; an event matching -> at least 1 (the count is the length of an enumeration of the matching rows)
+             "result > 0 or all(not (in_bucket(self, i, bucket_id) and ev_end(self, i) >= lo_bound(starttime) and ev_start(self, i) <= hi_bound(endtime))"
+             "                  for i in event_ids(self))",
+             "result == 0 or any(in_bucket(self, i, bucket_id) and ev_end(self, i) >= lo_bound(starttime) and ev_start(self, i) <= hi_bound(endtime)"
+             "                   for i in event_ids(self))",
+             ] + PURE_READ,
+    modifies=DBMOD, writes_fresh=CUR_FRESH, raises=[],
+)
+
+
+@spec
+def lo_bound(starttime):
+    return starttime.timestamp() * 1000000 if starttime else 0
+
+
+@spec
+def hi_bound(endtime):
+    return endtime.timestamp() * 1000000 if endtime else 2 ** 63 - 1
+
+
+@spec
+def in_window(self, i, bucket_id, starttime, endtime):
+    return in_bucket(self, i, bucket_id) and ev_end(self, i) >= lo_bound(starttime) and ev_start(self, i) <= hi_bound(endtime)
+
+
+contract(
+    S_ + ".get_events",
+    params={"self": "SqliteStorage", "bucket_id": "str", "limit": "int", "starttime": "Optional[datetime]", "endtime": "Optional[datetime]"},
+    returns="List[Event]",
+    requires=["lazy_inv(self)"],
+    ensures=[
+        "limit != 0 or len(result) == 0",
+        "limit <= 0 or len(result) <= limit",
+        # every returned event is a stored event of the bucket inside the window, decoded; newest first (timestamp descending)
+        "all(result[j].id is not None and in_window(self, result[j].id, bucket_id, starttime, endtime)"
+        "    and decodes(result[j], (result[j].id, ev_start(self, result[j].id), ev_end(self, result[j].id), ev_data(self, result[j].id)))"
+        "    for j in range(len(result)))",
+        "all(before(self, result[j].id, result[j2].id) for j in range(len(result)) for j2 in range(j + 1, len(result)))",
+        # nothing inside the window is missing, except events older than every returned one when a positive limit is reached
+        "limit == 0 or all(not in_window(self, i, bucket_id, starttime, endtime)"
+        "    or any(result[j].id == i for j in range(len(result)))"
+        "    or (limit > 0 and len(result) == limit and all(before(self, result[j].id, i) for j in range(len(result))))"
+        "    for i in event_ids(self))",
+    ] + [c for c in PURE_READ[:3]] + ["issued(self) == old(issued(self)) and lazy_inv(self)", "limit == 0 or pending(self) == 0"],
+    modifies=DBMOD, writes_fresh=CUR_FRESH + EV_FRESH, raises=[],
+)
+
+
+# -- insert_many (bulk insert + upsert) -----------------------------------------------------------------------------------------
+# U = the events carrying an id (upserted, in order), N = the events without one (inserted, in order);
+# last[i] = index in U of the last upsert addressed to row i (-1: none): the one whose value the row holds afterwards.
+SUBSEQ = ("all(0 <= filter_sel({L})[j] and filter_sel({L})[j] < len(events) and {L}[j] is events[filter_sel({L})[j]] for j in range(len({L})))",
+          "all(filter_sel({L})[j] < filter_sel({L})[j2] for j in range(len({L})) for j2 in range(j + 1, len({L})))")
+LAST_DEF = ("all((last[i] == -1 and all(U[j].id != i for j in range({K})))"
+            "    or (0 <= last[i] and last[i] < {K} and U[last[i]].id == i and all(U[j2].id != i for j2 in range(last[i] + 1, {K})))"
+            "    for i in integers())")
+UPSERTED = ("all(((last[i] == -1 or not old(in_bucket(self, i, bucket_id))) and ev_row(self, i) == old(ev_row(self, i)))"
+            "    or (last[i] >= 0 and old(in_bucket(self, i, bucket_id)) and in_bucket(self, i, bucket_id)"
+            "        and ev_bucketrow(self, i) == old(ev_bucketrow(self, i)) and holds(self, i, U[last[i]]))"
+            "    for i in event_ids(self){COND})")
+
+contract(
+    S_ + ".insert_many",
+    params={"self": "SqliteStorage", "bucket_id": "str", "events": "List[Event]"},
+    locals={"events_upsert": "List[Event]", "events_insert": "List[Event]", "event_rows": "List[Tuple[str, float, float, str]]"},
+    requires=["lazy_inv(self)"],
+    ghost_vars={"U": ("List[Event]", "[]"), "N": ("List[Event]", "[]"), "last": ("IntMap", "mnew()")},
+    ghost_code=[dict(after="events_upsert = [", code="U = events_upsert"),
+                dict(after="events_insert = [", code="N = events_insert")],
+    ensures=[
+        BUCKETS_SAME, "lazy_inv(self)",
+        # U / N: the order-preserving sub-sequences of the events with / without an id
+        SUBSEQ[0].format(L="U"), SUBSEQ[1].format(L="U"), "all(U[j].id is not None for j in range(len(U)))",
+        "all(events[i].id is None or (0 <= filter_pos(U)[i] and filter_pos(U)[i] < len(U) and filter_sel(U)[filter_pos(U)[i]] == i)"
+        "    for i in range(len(events)))",
+        SUBSEQ[0].format(L="N"), SUBSEQ[1].format(L="N"), "all(N[j].id is None for j in range(len(N)))",
+        "all(events[i].id is not None or (0 <= filter_pos(N)[i] and filter_pos(N)[i] < len(N) and filter_sel(N)[filter_pos(N)[i]] == i)"
+        "    for i in range(len(events)))",
+        LAST_DEF.format(K="len(U)"),
+        # every event without an id gets a new row (ids never used before, consecutive, in order) in the addressed bucket
+        "ev_max(self) == old(ev_max(self)) + len(N)",
+        "all(in_bucket(self, old(ev_max(self)) + 1 + j, bucket_id) and holds(self, old(ev_max(self)) + 1 + j, N[j]) for j in range(len(N)))",
+        # every other row: rewritten by the last upsert addressed to it if it is a live event of the addressed bucket, else untouched
+        UPSERTED.format(COND=" if i <= old(ev_max(self)) or i > ev_max(self)"),
+        # C18: a pure bulk insert issued more than ten seconds after the previous flush is flushed before it returns
+        "not (self.enable_lazy_commit and old(clock_now() - self.last_commit) > timedelta(seconds=10) and len(U) == 0) or pending(self) == 0",
+    ],
+    exc_ensures={"IntegrityError": ["not old(bucket_exists(self, bucket_id))", BUCKETS_SAME, EVENTS_SAME]},
+    modifies=DBMOD, writes_fresh=CUR_FRESH, raises=["IntegrityError"],
+    loops={
+        0: dict(index="k", ghost_update=["last = mset(last, U[k].id, k)"], invariant=[
+            "events_upsert is U and lazy_inv(self)", BUCKETS_SAME,
+            "len(U) > 0 or self.last_commit == old(self.last_commit)", "self.enable_lazy_commit == old(self.enable_lazy_commit)",
+            "all(U[j].id is not None for j in range(len(U)))",
+            "ev_max(self) == old(ev_max(self))",
+            LAST_DEF.format(K="k"),
+            UPSERTED.format(COND=""),
+        ]),
+        1: dict(index="m", invariant=[
+            "events_insert is N and len(event_rows) == m",
+            "all(event_rows[j][0] == bucket_id and event_rows[j][1] == enc_start(N[j]) and event_rows[j][2] == enc_end(N[j])"
+            "    and event_rows[j][3] == json.dumps(N[j].data) for j in range(m))",
+        ]),
+    },
+)
+
+
+# -- buckets(): the listing ---------------------------------------------------------------------------------------------------------
+@spec
+def describes(d, self, r):
+    """dict d is the listing entry of bucket row r"""
+    return (d['id'] == bk_id(self, r) and d['name'] == bk_col(self, r, 'name') and d['type'] == bk_col(self, r, 'type')
+            and d['client'] == bk_col(self, r, 'client') and d['hostname'] == bk_col(self, r, 'hostname')
+            and d['created'] == bk_col(self, r, 'created')
+            and jv_dict(d['data']) == json.loads(bk_col(self, r, 'datastr') if len(bk_col(self, r, 'datastr')) > 0 else '{}'))
+
+
+contract(
+    S_ + ".buckets",
+    params={"self": "SqliteStorage"}, returns="Dict[str,Dict[str,JV]]",
+    locals={"buckets": "Dict[str,Dict[str,JV]]"},
+    requires=["db_inv(self)"],
+    ensures=[
+        # exactly the live bucket rows are listed, each under its id with its own metadata
+        "all(not bk_live(self, r) or (bk_id(self, r) in result and describes(result[bk_id(self, r)], self, r)) for r in bucket_rowids(self))",
+        "all(bucket_exists(self, b) for b in result)",
+        "fresh(result)", BUCKETS_SAME, EVENTS_SAME, MAXES_SAME, "pending(self) == old(pending(self)) and issued(self) == old(issued(self))",
+    ],
+    modifies=["alloc"], writes_fresh=CUR_FRESH + ["Dict.map:JV", "Dict.map:Dict[str,JV]"], raises=[],
+    loops={0: dict(index="k", invariant=[
+        "all(bucket_exists(self, b) for b in buckets)",
+        "all(not bk_live(self, r) or not any(__seq[j][0] == bk_id(self, r) for j in range(k))"
+        "    or (bk_id(self, r) in buckets and describes(buckets[bk_id(self, r)], self, r)) for r in bucket_rowids(self))",
+    ])},
 )
